@@ -9,6 +9,7 @@ import (
 	"fmt"
 	"os"
 	"strings"
+	"time"
 )
 
 // an executor answers one op line (already split in words, without the property tag)
@@ -42,7 +43,21 @@ func (g *gen) budget(quick, thorough int) int {
 	return quick
 }
 
-func safeExec(line string) (res string) {
+// opTimeout bounds one op: a call that does not return (deadlock, livelock) is answered "timeout"; its goroutine is abandoned
+var opTimeout = 180 * time.Second
+
+func safeExec(line string) string {
+	done := make(chan string, 1)
+	go func() { done <- safeExec1(line) }()
+	select {
+	case r := <-done:
+		return r
+	case <-time.After(opTimeout):
+		return "timeout"
+	}
+}
+
+func safeExec1(line string) (res string) {
 	defer func() {
 		if r := recover(); r != nil {
 			res = "panic"
